@@ -204,7 +204,7 @@ class MAE(PredictMetric, ListMetric, DecomposedMetric):
             tot_err += t
             tot_n += n
 
-        if n > 0:
+        if tot_n > 0:
             return tot_err / tot_n
         else:
             return np.nan
